@@ -451,4 +451,91 @@ theorem vmp_prepare_in_bounds (m nrows ncols : Nat) (hm : m % 4 = 0) :
       omega
 example : InBounds (lens4 (16 * 2 * 3) (16 * 2 * 3) 0 16) (vmpPrepare 8 2 3) ∧ (vmpPrepare 8 2 3).length = 60 := by decide
 
+/-- **`vmp_apply_dft_to_dft_core`** (FFT64 ref and AVX; both `limb_offset` parities, odd last column, `res` shorter or
+longer than the product, `a` shorter than the matrix).  Caller's contract: entry assertions (`4 ∣ m`, `pmat.len() =
+n·nrows·ncols`, `res.len() = n·resSize`, `a.len() = n·aSize`) and the temporary taken by the HAL wrapper:
+`tmp.len() ≥ 16 + 8·min(nrows, aSize)` (`vmp_apply_dft_to_dft_tmp_bytes`).  Then every access — the `2·row_max` 4-lane
+gathers from `a`, the 16- and 8-wide loads of the interleaved matrix, the 16 doubles `mat2cols` stores, the stores into
+`res` at `blk·4 + t·m` — is in bounds. -/
+theorem vmp_apply_in_bounds (m resSize aSize nrows ncols lo tmpLen : Nat) (hm : m % 4 = 0)
+    (htmp : 16 + 8 * min nrows aSize ≤ tmpLen) :
+    InBounds (lens4 (2 * m * resSize) (2 * m * aSize) (2 * m * nrows * ncols) tmpLen) (vmpApply m resSize aSize nrows ncols lo) := by
+  unfold vmpApply
+  simp only []
+  split
+  · exact inb_cons (by simp only [wt, lens4]; omega) (inb_nil _)
+  rename_i hlo
+  have hlo' : lo < min ncols (resSize + lo) := by omega
+  have hcm1 : min ncols (resSize + lo) ≤ ncols := Nat.min_le_left _ _
+  have hcm2 : min ncols (resSize + lo) ≤ resSize + lo := Nat.min_le_right _ _
+  have hrm1 : min nrows aSize ≤ nrows := Nat.min_le_left _ _
+  have hrm2 : min nrows aSize ≤ aSize := Nat.min_le_right _ _
+  have hres1 : 1 ≤ resSize := by omega
+  generalize hC : min ncols (resSize + lo) = colMax at *
+  generalize hR : min nrows aSize = rowMax at *
+  refine inb_append (inb_flatMap (fun blk hblk => ?_)) (inb_cons ?_ (inb_nil _))
+  · have hb : blk < m / 4 := List.mem_range.mp hblk
+    have hsave2 : ∀ c, c ∈ pairCols lo colMax ∨ c ∈ pairCols (lo + 1) colMax →
+        InBounds (lens4 (2 * m * resSize) (2 * m * aSize) (2 * m * nrows * ncols) tmpLen)
+          (mat2cols rowMax (3, 0) (3, 16) (2, blk * (8 * nrows * ncols) + c * (8 * nrows)) ++ save2blk m blk (0, (c - lo) * (2 * m)) (3, 0)) := by
+      intro c hc
+      have hcc : lo ≤ c ∧ c + 2 ≤ colMax := by
+        rcases hc with h | h
+        · exact ⟨(mem_pairCols h).1, (mem_pairCols h).2.1⟩
+        · exact ⟨by have := (mem_pairCols h).1; omega, (mem_pairCols h).2.1⟩
+      refine inb_append (mat2cols_inb _ _ _ _ (by simp only [lens4]; omega) (by simp only [lens4]; omega) ?_)
+        (save2blk_inb _ _ _ _ ?_ (by simp only [lens4]; omega))
+      · simp only [lens4]
+        have k1 := col_ext (c := c) (k := 2) (ncols := ncols) (nrows := nrows) (y := 16 * rowMax) (by omega) (by omega)
+        have := pm_fit (m := m) (blk := blk) (nrows := nrows) (ncols := ncols) hm hb k1
+        omega
+      · simp only [lens4]
+        have k1 := limb_fit (j := c - lo) (k := 2) (n := 2 * m) (S := resSize) (by omega)
+        omega
+    refine inb_append (inb_append ?_ ?_) ?_
+    · refine extract1blk_inb' m rowMax blk _ _ ?_ (by simp only [lens4]; omega)
+      by_cases h0 : rowMax = 0
+      · exact Or.inl h0
+      · right
+        simp only [lens4]
+        have k := rows_fit (rowMax := rowMax) (m := m) (aSize := aSize) (by omega) hrm2
+        have e : 4 * (m / 4) = m := by omega
+        rw [e]; omega
+    · split
+      · exact inb_flatMap (fun c hc => hsave2 c (Or.inl hc))
+      · rename_i hodd
+        refine inb_append (inb_append (mat2cols2nd_inb _ _ _ _ (by simp only [lens4]; omega) (by simp only [lens4]; omega) ?_)
+          (save1blk_inb _ _ _ _ ?_ (by simp only [lens4]; omega))) (inb_flatMap (fun c hc => hsave2 c (Or.inr hc)))
+        · simp only [lens4]
+          have k1 := col_ext (c := lo - 1) (k := 2) (ncols := ncols) (nrows := nrows) (y := 16 * rowMax) (by omega) (by omega)
+          have := pm_fit (m := m) (blk := blk) (nrows := nrows) (ncols := ncols) hm hb k1
+          omega
+        · simp only [lens4]
+          have k1 := limb_fit (j := 0) (k := 1) (n := 2 * m) (S := resSize) (by omega)
+          omega
+    · refine inb_ite (fun hlast => ?_) (fun _ => inb_nil _)
+      refine inb_append (inb_ite (fun he => ?_) (fun hne => ?_)) (save1blk_inb _ _ _ _ ?_ (by simp only [lens4]; omega))
+      · refine mat1col_inb _ _ _ _ (by simp only [lens4]; omega) (by simp only [lens4]; omega) ?_
+        simp only [lens4]
+        have k1 := col_ext (c := colMax - 1) (k := 1) (ncols := ncols) (nrows := nrows) (y := 8 * rowMax) (by omega) (by omega)
+        have := pm_fit (m := m) (blk := blk) (nrows := nrows) (ncols := ncols) hm hb k1
+        omega
+      · refine mat2cols_inb _ _ _ _ (by simp only [lens4]; omega) (by simp only [lens4]; omega) ?_
+        simp only [lens4]
+        have k1 := col_ext (c := colMax - 1) (k := 2) (ncols := ncols) (nrows := nrows) (y := 16 * rowMax) (by omega) (by omega)
+        have := pm_fit (m := m) (blk := blk) (nrows := nrows) (ncols := ncols) hm hb k1
+        omega
+      · simp only [lens4]
+        have k1 := limb_fit (j := colMax - 1 - lo) (k := 1) (n := 2 * m) (S := resSize) (by omega)
+        omega
+  · simp only [wt, lens4]
+    have k1 := limb_fit (j := colMax - lo) (k := 0) (n := 2 * m) (S := resSize) (by omega)
+    omega
+example : InBounds (lens4 (16 * 3) (16 * 4) (16 * 4 * 5) (16 + 8 * 4)) (vmpApply 8 3 4 4 5 1) ∧
+    InBounds (lens4 (16 * 3) (16 * 2) (16 * 4 * 5) (16 + 8 * 2)) (vmpApply 8 3 2 4 5 2) := by decide
+
+/-- the temporary's size is necessary: with one `f64` less than `16 + 8·row_max` the AVX gather writes past it -/
+theorem vmp_apply_tmp_too_small_counterexample :
+    ¬ InBounds (lens4 (16 * 3) (16 * 4) (16 * 4 * 5) (16 + 8 * 4 - 1)) (vmpApply 8 3 4 4 5 0) := by decide
+
 end C17
